@@ -496,6 +496,15 @@ func (s *stdioTransport) processMessage(ctx context.Context, line string, writer
 			return nil
 		}
 		if response != nil {
+			if _, err := json.Marshal(response); err != nil {
+				// A result that cannot be encoded is a handler failure: answer with an internal error.
+				var idHolder struct {
+					ID interface{} `json:"id"`
+				}
+				_ = json.Unmarshal(rawMessage, &idHolder)
+				response = newJSONRPCErrorResponse(idHolder.ID, ErrCodeInternal,
+					fmt.Sprintf("%v: %v", ErrResponseSerialization, err), nil)
+			}
 			return s.writeResponse(response, writer)
 		}
 		s.logger.Debugf("processMessage: No response generated\n")
